@@ -21,8 +21,11 @@ import (
 
 	simapp "github.com/provenance-io/provenance/app"
 	"github.com/provenance-io/provenance/internal/antewrapper"
+	"github.com/google/uuid"
+
 	"github.com/provenance-io/provenance/x/exchange"
 	markertypes "github.com/provenance-io/provenance/x/marker/types"
+	mdtypes "github.com/provenance-io/provenance/x/metadata/types"
 )
 
 // c03Deliver runs msg through ValidateBasic (when it has one) and the real message router.
@@ -276,6 +279,17 @@ func TestC03(t *testing.T) {
 			run: func(e *c03Env, ctx sdk.Context, a, o sdk.AccAddress, d string, amt sdkmath.Int) error {
 				return c03Deliver(e.app, ctx, &exchange.MsgCommitFundsRequest{Account: a.String(), MarketId: e.marketID, Amount: sdk.NewCoins(sdk.NewCoin(d, amt))})
 			}},
+		{name: "accept a payment as its target (target amount leaves the account)", class: "RSpend", kinds: []int{kBase, kContVesting},
+			run: func(e *c03Env, ctx sdk.Context, a, o sdk.AccAddress, d string, amt sdkmath.Int) error {
+				// the source's side is reserved at creation; accepting moves the TARGET amount out of a
+				fund(e.t, e.app, ctx, o, sdk.NewCoins(sdk.NewInt64Coin("othercoin", 1)))
+				pmt := exchange.Payment{Source: o.String(), SourceAmount: sdk.NewCoins(sdk.NewInt64Coin("othercoin", 1)),
+					Target: a.String(), TargetAmount: sdk.NewCoins(sdk.NewCoin(d, amt)), ExternalId: "c03acc"}
+				if err := e.app.ExchangeKeeper.CreatePayment(ctx, &pmt); err != nil {
+					e.t.Fatalf("counterparty payment: %v", err)
+				}
+				return c03Deliver(e.app, ctx, &exchange.MsgAcceptPaymentRequest{Payment: pmt})
+			}},
 		{name: "payment", class: "RNewHold", kinds: []int{kBase, kContVesting},
 			run: func(e *c03Env, ctx sdk.Context, a, o sdk.AccAddress, d string, amt sdkmath.Int) error {
 				return c03Deliver(e.app, ctx, &exchange.MsgCreatePaymentRequest{Payment: exchange.Payment{Source: a.String(), SourceAmount: sdk.NewCoins(sdk.NewCoin(d, amt)),
@@ -416,6 +430,53 @@ func TestC03(t *testing.T) {
 					}
 				}
 			}
+		}
+	}
+
+	// ---------------- deleting a scope burns its coin: not while the coin is on hold ----------------
+	for k := 0; k < scale(8, 200); k++ {
+		ctx, _ := baseCtx.CacheContext()
+		nAcc++
+		a := addrN(nAcc)
+		ensureAccount(app, ctx, a)
+		// an account that has signed before (x/metadata takes a never-used account for a contract)
+		if acc := app.AccountKeeper.GetAccount(ctx, a); acc != nil {
+			_ = acc.SetSequence(1)
+			app.AccountKeeper.SetAccount(ctx, acc)
+		}
+		specID := mdtypes.ScopeSpecMetadataAddress(uuid.NewSHA1(uuid.Nil, []byte(fmt.Sprintf("c03-spec-%d", nAcc))))
+		app.MetadataKeeper.SetScopeSpecification(ctx, mdtypes.ScopeSpecification{SpecificationId: specID,
+			OwnerAddresses: []string{a.String()}, PartiesInvolved: []mdtypes.PartyType{mdtypes.PartyType_PARTY_TYPE_OWNER}})
+		scopeID := mdtypes.ScopeMetadataAddress(uuid.NewSHA1(uuid.Nil, []byte(fmt.Sprintf("c03-scope-%d", nAcc))))
+		if err := c03Deliver(app, ctx, &mdtypes.MsgWriteScopeRequest{Scope: mdtypes.Scope{ScopeId: scopeID, SpecificationId: specID,
+			Owners: []mdtypes.Party{{Address: a.String(), Role: mdtypes.PartyType_PARTY_TYPE_OWNER}}, ValueOwnerAddress: a.String()},
+			Signers: []string{a.String()}}); err != nil {
+			t.Fatalf("write scope: %v", err)
+		}
+		denom := scopeID.Denom()
+		hh := int64(k % 2)
+		if hh > 0 {
+			if k%4 == 1 {
+				// the hold comes from an ask order selling the scope
+				if err := c03Deliver(app, ctx, &exchange.MsgCreateAskRequest{AskOrder: exchange.AskOrder{MarketId: e.marketID, Seller: a.String(),
+					Assets: sdk.NewInt64Coin(denom, 1), Price: sdk.NewInt64Coin("pricecoin", 10)}}); err != nil {
+					t.Fatalf("ask selling the scope: %v", err)
+				}
+			} else if err := app.HoldKeeper.AddHold(ctx, a, sdk.NewCoins(sdk.NewInt64Coin(denom, 1)), "c03"); err != nil {
+				t.Fatalf("hold on the scope coin: %v", err)
+			}
+		}
+		cctx, write := ctx.CacheContext()
+		err := c03Deliver(app, cctx, &mdtypes.MsgDeleteScopeRequest{ScopeId: scopeID, Signers: []string{a.String()}})
+		if err == nil {
+			write()
+		}
+		obs := c03Obs(e, ctx, err == nil, a, denom)
+		term := fmt.Sprintf("CRoute %s RSpend 1 %s 0 0 1 %s", coqStr("delete scope (burn of the scope coin) from base account"), zI64(hh), obs)
+		w.Add(term, desc{"route": "delete scope", "balance": 1, "hold": hh, "accepted": err == nil, "error": fmt.Sprint(err)})
+		w.Count("route:delete scope")
+		if hh > 0 {
+			w.Nontrivial(fmt.Sprintf("delete scope/%d", k))
 		}
 	}
 
